@@ -88,7 +88,7 @@ def shape_flags(prog):
     """Syntactic shape predicates used in known-finding keys (see known_findings.jsonl)."""
     flags = set()
 
-    def walk(x, top_loop, top_if, in_fun, in_gen=False):
+    def walk(x, top_loop, top_if, in_fun, in_gen=False, nested=False):
         if isinstance(x, dict):
             e = x.get("e")
             if e in ("while", "for", "forin") and not in_fun:
@@ -108,17 +108,22 @@ def shape_flags(prog):
                 flags.add("singleton-bracket-if")
             if e == "try" and in_gen:
                 flags.add("try-in-generator")
+            if e == "try" and nested and any(h.get("ps") for h in x.get("hs", [])):
+                flags.add("payload-read-in-nested-try")
             if e == "try" and any(has_try(v) for k_, v in x.items() if k_ in ("body", "hs", "fin")):
                 flags.add("nested-try")
             if e == "gen":
                 in_gen = True
             if e in ("lam", "gen"):
                 in_fun = True
+                nested = False
+            if e in ("if", "while", "for", "forin", "and", "or", "exit"):
+                nested = True       # (for the payload finding) the parts of a conditional / loop
             for v in x.values():
-                walk(v, top_loop, top_if, in_fun, in_gen)
+                walk(v, top_loop, top_if, in_fun, in_gen, nested)
         elif isinstance(x, list):
             for v in x:
-                walk(v, top_loop, top_if, in_fun, in_gen)
+                walk(v, top_loop, top_if, in_fun, in_gen, nested)
 
     def has_try(x):
         if isinstance(x, dict):
